@@ -67,26 +67,32 @@ def member_text(v: Any) -> Any:
 
 def documented_find(ty: Any, values: list, d: Any) -> int | None:
     """Position of the member that `Enum.find_member` AS DOCUMENTED IN KNOWN FINDING D24 returns for `d`:
-    first member whose text equals the value after stripping surrounding quotes from both, or whose text
-    is `repr(value)`. Computed from the input and the escape table only (never from the code under test):
-    it delimits the region of D24, it is not an oracle."""
+    first member WITH a value (the member `NoneType_None = None` of D12 is skipped) whose text equals the
+    value after stripping surrounding quotes from both, or whose text is `repr(value)`. Computed from the
+    input and the escape table only (never from the code under test): it delimits the region of D24, it is
+    not an oracle."""
     sd, rd = str(d).strip(Q), repr(d)
     for i, v in enumerate(kept_entries(ty, values)):
         t = member_text(v)
-        if str(t or "").strip(Q) == sd or (isinstance(t, str) and t == rd):
+        if t is None:
+            continue
+        if str(t).strip(Q) == sd or (isinstance(t, str) and t == rd):
             return i
     return None
 
 
-def default_trigger(ty: Any, values: list, d: Any, in_list: bool = False) -> str:
-    """class of a default (an entry of the enum) w.r.t. the known defects of the default → member step"""
-    if not d and not (in_list and isinstance(d, str)):
-        return "falsy_default"  # D25: `if not model_field.default`, `field.default or ""`
+def default_trigger(ty: Any, values: list, d: Any) -> str:
+    """class of a default (an entry of the enum) w.r.t. the known defects of the default → member step
+    (falsy defaults 0 / "" / false are no class of their own any more: D25 is repaired, they must resolve)"""
     non_null = [v for v in values if v is not None]
     if base.py_equal_groups(non_null):
         return "py_equal_values"  # D12
     if None in values and ty == "string":
-        return "nullable_wrapper"  # D27 (dataclass output only)
+        # the member refers to the wrapper `E = Optional[EEnum]` (a root model in pydantic output). D27: dataclass output never
+        # resolves the default. C09-F3: pydantic output validates the default through the root model
+        # (`Field(default_factory=lambda: E.parse_obj(d))`) only when it is truthy (`elif self.default and …` in
+        # model/pydantic/base_model.py DataModelField.__str__): a falsy default ("") stays the raw value
+        return "nullable_wrapper" if d else "nullable_wrapper_falsy_default"
     pos = documented_find(ty, values, d)
     if pos is None:
         return "find_escaped_not_repr"  # D24: neither comparison matches the entry itself
@@ -380,8 +386,8 @@ def import_trigger(dc: dict, culprit_module: list | None) -> str:
             for f in h["fields"]:
                 e = dc["enums"][f["enum"]]
                 ds = f["default"] if f["shape"] == "list" else [f["default"]]
-                if not f["default"] or all(documented_find(e["type"], e["values"], d) is None for d in ds):
-                    continue  # no member is written for this field
+                if f["default"] is None or all(documented_find(e["type"], e["values"], d) is None for d in ds):
+                    continue  # no member is written for this field (missing default, `[]`, nothing found)
                 if f["wrap"] == "inline" or e["module"] == culprit_module:
                     return "dotted_name_defining_module"
                 if dc["opts"].get("use_exact_imports") and e["module"]:
@@ -494,7 +500,7 @@ def check_dcase(ck: Check, camp, dc: dict) -> None:
                 trig = "none"
                 if len(xs) != len(ds):
                     bad.append(f"{len(ds)} entries in the default, {len(xs)} elements in the rendered default")
-                    trig = next((t for t in (default_trigger(e["type"], e["values"], d, f["shape"] == "list") for d in ds) if t != "none"), "none")
+                    trig = next((t for t in (default_trigger(e["type"], e["values"], d) for d in ds) if t != "none"), "none")
                 for d, got in zip(ds, xs):
                     if f["wrap"] == "inline":
                         ok = (isinstance(got, pyenum.Enum) and type(got).__module__ == mod.__name__ and base.typed(got.value) == base.typed(d)
@@ -503,10 +509,12 @@ def check_dcase(ck: Check, camp, dc: dict) -> None:
                         want = [m for m in enum_cls[f["enum"]] if base.typed(m.value) == base.typed(d)]
                         ok = len(want) == 1 and got is want[0]
                     if not ok:
-                        t = default_trigger(e["type"], e["values"], d, f["shape"] == "list")
+                        t = default_trigger(e["type"], e["values"], d)
                         trig = t if trig == "none" else trig
                         bad.append(f"{d!r} is rendered as {got!r}")
                 camp.hit(f"default:{f['shape']}:{f['wrap']}:{where}:{'member' if not bad else 'not_member'}")
+                if any(not d for d in ds):
+                    camp.hit(f"default:falsy_entry:{f['shape']}:{'member' if not bad else 'not_member'}")  # the region of the repaired finding D25
                 if bad:
                     ck.fail({**cls0, "mechanism": "default_member", "trigger": trig, "shape": f["shape"], "where": where}, dc,
                             f"{h['name']}.{f['name']}: default {f['default']!r} names entries of {f['enum']} but " + "; ".join(bad[:3]))
@@ -543,6 +551,29 @@ CORPUS: list[dict] = [
                                                               {"name": "f1", "enum": "Color", "shape": "list", "wrap": "inline", "default": ["C:\\temp", "/", "two\nlines"]},
                                                               {"name": "f2", "enum": "Color", "shape": "scalar", "wrap": "inline", "default": "\r\n"}]}],
      "order": ["Color", "Palette"]},
+    # the region of the repaired finding D25: falsy defaults (0, "") as scalar and inside lists, in the defining module and in an
+    # importing one, every executable kind
+    {"dkind": "tree", "model": "dataclasses.dataclass", "opts": {"set_default_enum_member": True},
+     "enums": {"Size": {"module": ["shared"], "type": "integer", "values": [0, 1, 2]}},
+     "holders": [{"module": ["shared"], "name": "Palette", "fields": [{"name": "f0", "enum": "Size", "shape": "scalar", "wrap": "ref", "default": 0},
+                                                                       {"name": "f1", "enum": "Size", "shape": "list", "wrap": "ref", "default": [0, 2, 0]}]},
+                 {"module": ["app"], "name": "Widget", "fields": [{"name": "f0", "enum": "Size", "shape": "scalar", "wrap": "allOf", "default": 0},
+                                                                   {"name": "f1", "enum": "Size", "shape": "list", "wrap": "ref", "default": [0]}]}],
+     "order": ["Widget", "Size", "Palette"]},
+    {"dkind": "tree", "model": "pydantic_v2.BaseModel", "opts": {"set_default_enum_member": True},
+     "enums": {"Size": {"module": ["base"], "type": "integer", "values": [1, 0]}, "Mode": {"module": ["base"], "type": "string", "values": ["on", ""]}},
+     "holders": [{"module": ["base"], "name": "Palette", "fields": [{"name": "f0", "enum": "Size", "shape": "scalar", "wrap": "ref", "default": 0},
+                                                                     {"name": "f1", "enum": "Mode", "shape": "scalar", "wrap": "ref", "default": ""}]},
+                 {"module": ["zzz"], "name": "Widget", "fields": [{"name": "f0", "enum": "Mode", "shape": "scalar", "wrap": "ref", "default": ""},
+                                                                   {"name": "f1", "enum": "Size", "shape": "list", "wrap": "ref", "default": [0, 1]},
+                                                                   {"name": "f2", "enum": "Mode", "shape": "list", "wrap": "ref", "default": ["", "on"]}]}],
+     "order": ["Mode", "Widget", "Size", "Palette"]},
+    {"dkind": "single", "model": "pydantic.BaseModel", "opts": {"set_default_enum_member": True},
+     "enums": {"Size": {"module": [], "type": "integer", "values": [0, 1]}, "Mode": {"module": [], "type": "string", "values": ["", "on"]}},
+     "holders": [{"module": [], "name": "Palette", "fields": [{"name": "f0", "enum": "Size", "shape": "scalar", "wrap": "ref", "default": 0},
+                                                               {"name": "f1", "enum": "Mode", "shape": "scalar", "wrap": "inline", "default": ""},
+                                                               {"name": "f2", "enum": "Size", "shape": "list", "wrap": "inline", "default": [0, 1, 0]}]}],
+     "order": ["Size", "Mode", "Palette"]},
 ]
 
 
@@ -685,6 +716,11 @@ STEP_CORPUS = [
                                                      [{"alias": "pal.Color", "default": ["red", "green", "red"]}]]),
     (base.Case("integer", [0, 1, 2]), Cfg(), [[{"alias": "m.E", "default": [0, 1]}, {"alias": "", "default": 1}], [{"alias": None, "default": [1, 2, 0]}]]),
     (base.Case("string", ["a\\b", "x"]), Cfg(cap=True), [[{"alias": None, "default": ["a\\b", "zz", "x"]}], [{"alias": "q.E", "default": "a\\b"}]]),
+    # falsy defaults are looked up (D25 repaired); a missing default (None), `[]` and a None-valued member (D12) are not
+    (base.Case("integer", [0, 1, 2]), Cfg(), [[{"alias": None, "default": 0}, {"alias": "m.E", "default": 0}], [{"alias": "", "default": [0, 0]}]]),
+    (base.Case("string", ["", "a"]), Cfg(), [[{"alias": "shared.Color", "default": ""}], [{"alias": None, "default": ["", "a"]}, {"alias": None, "default": []}]]),
+    (base.Case(None, [False, "x", 0.0]), Cfg(), [[{"alias": None, "default": False}, {"alias": "q.E", "default": 0.0}]]),
+    (base.Case(None, [1, None, ""]), Cfg(), [[{"alias": None, "default": None}, {"alias": "q.E", "default": [None, ""]}, {"alias": None, "default": ""}]]),
 ]
 
 
